@@ -1,6 +1,7 @@
 import Driver.Proto
 import MesonModel.Ninja.Manifest
 import MesonModel.Ninja.Emit
+import MesonModel.Ninja.Ending
 /-
 driver commands of area `ninja`
 
@@ -15,6 +16,14 @@ driver commands of area `ninja`
   quote <name>                         -> ninja_quote(name, is_build_line=True) of the emission model
   readpath <text>                      -> OK|<first path as read by the lexer>|<rest>
   emit <ops>                           -> the emission state machine (see MesonModel/Ninja/Emit.lean)
+  check <text>|<fs>|<reqs>|<inst>      -> as `check`, plus the install clause (root `install`, inst = files copied unconditionally)
+  checkg <rules>|<edges>|<fs>|<reqs>|<pools>|<defaults>|<iroot>|<inst>
+  ending <targets>|<tests>|<benchmarks>
+                                       -> the aggregate targets of MesonModel/Ninja/Ending.lean for a target table
+                                          target = k;dir;out0;rest;bbd;install;build_always;mask  (k = b|c, bbd/build_always = n|t|f,
+                                          mask = 0/1 per output) joined by `/`; test = exe;args;depends with references
+                                          T<i> I<i> LT<i> LI<i> O joined by `,`, tests joined by `/`
+                                          OK|bbd=<bits>|all=…|test=…|bench=…|mand=…|opt=…|install=<ins of the install statements>
 
 lists are `,`-joined encoded strings; reqs = root,target,root,target,…
 -/
@@ -41,7 +50,8 @@ def pairs : List String → List (String × String)
 
 def encS (l : List String) : String := encodeStrList (l.map String.toList)
 
-def verdict (g : Graph String) (fs : List String) (reqs : List (String × String)) : String :=
+def verdict (g : Graph String) (fs : List String) (reqs : List (String × String)) (iroot : String := "install")
+    (inst : List String := []) : String :=
   let es := g.edges
   let r1 := rulesDefined g
   let r2 := outputsDisjoint es
@@ -50,7 +60,9 @@ def verdict (g : Graph String) (fs : List String) (reqs : List (String × String
   let r5 := reqsOk es reqs
   let r6 := poolsB g
   let r7 := defaultsB g
-  let wf := r1 && r2 && r3 && r4 && r5 && r6 && r7   -- = wellFormed g fs reqs (by definition)
+  let r8 := installB fs es iroot inst
+  let wf := r1 && r2 && r3 && r4 && r5 && r6 && r7 && r8   -- = wellFormedInst g fs reqs iroot inst (by definition)
+  let instMissing := if r8 then [] else installMissing fs es iroot inst
   let dup := if r2 then "" else match firstDup (allOuts es) with | some d => encodeStr d.toList | none => ""
   let missing := if r4 then [] else (missingInputs fs es).eraseDups
   let unreached := if r5 then [] else
@@ -59,7 +71,7 @@ def verdict (g : Graph String) (fs : List String) (reqs : List (String × String
   let badrules := (es.filter (fun e => !ruleOk g.rules e)).map (·.rule) |>.eraseDups
   s!"OK|wf={boolStr wf}|rules={boolStr r1}|unique={boolStr r2}|acyclic={boolStr r3}|closed={boolStr r4}|reach={boolStr r5}" ++
   s!"|dup={dup}|missing={encS missing}|unreached={encS unreached}|stuck={stuck}|badrules={encL badrules}" ++
-  s!"|edges={es.length}|pools={boolStr r6}|defaults={boolStr r7}"
+  s!"|edges={es.length}|pools={boolStr r6}|defaults={boolStr r7}|install={boolStr r8}|instmissing={encS instMissing}"
 
 def strs (f : String) : List String := (decodeStrList f).map String.ofList
 
@@ -69,6 +81,65 @@ def decodeEdge (s : String) : Edge String :=
   | [r, o, i, v] => { rule := decodeStr r, outs := strs o, ins := strs i, vals := strs v }
   | [r, o, i] => { rule := decodeStr r, outs := strs o, ins := strs i }
   | _ => { rule := [], outs := [], ins := [] }
+
+/-! the aggregate targets -/
+
+open MesonModel.Ninja.Ending in
+def decodeTri (s : String) : Option Bool := if s == "t" then some true else if s == "f" then some false else none
+
+open MesonModel.Ninja.Ending in
+def decodeTarget (s : String) : Option Target :=
+  match s.splitOn ";" with
+  | [k, d, o, r, b, i, ba, m] =>
+    some { kind := if k == "c" then .custom else .build, dir := decodeStr d, out0 := decodeStr o, outRest := decodeStrList r,
+           bbdKw := decodeTri b, install := i == "1", buildAlways := decodeTri ba, instMask := m.toList.map (· == '1') }
+  | _ => none
+
+open MesonModel.Ninja.Ending in
+def decodeRef (tbl : Array Target) (s : String) : Option Ref :=
+  let num (pre : String) : Option Target := (s.drop pre.length).toString.toNat? >>= (tbl[·]?)
+  if s == "O" then some .other
+  else if s.startsWith "LT" then (num "LT").map .localTarget
+  else if s.startsWith "LI" then (num "LI").map .localIndex
+  else if s.startsWith "T" then (num "T").map .target
+  else if s.startsWith "I" then (num "I").map .index
+  else none
+
+open MesonModel.Ninja.Ending in
+def decodeDRef (tbl : Array Target) (s : String) : Option DRef :=
+  match decodeRef tbl s with
+  | some (.target t) => some (.target t)
+  | some (.index t) => some (.index t)
+  | _ => none
+
+def splitNonEmpty (s : String) (sep : String) : List String := if s.trimAscii.isEmpty then [] else s.splitOn sep
+
+open MesonModel.Ninja.Ending in
+def decodeTest (tbl : Array Target) (s : String) : Option Test :=
+  match s.splitOn ";" with
+  | [e, a, d] => do
+    let exe ← decodeRef tbl e
+    let args ← (splitNonEmpty a ",").mapM (decodeRef tbl)
+    let deps ← (splitNonEmpty d ",").mapM (decodeDRef tbl)
+    pure { exe := exe, args := args, depends := deps }
+  | _ => none
+
+open MesonModel.Ninja.Ending in
+def endingCmd (ts tests benches : String) : String :=
+  match (splitNonEmpty ts "/").mapM decodeTarget with
+  | none => "bad-op"
+  | some tbl =>
+    let arr := tbl.toArray
+    match (splitNonEmpty tests "/").mapM (decodeTest arr), (splitNonEmpty benches "/").mapM (decodeTest arr) with
+    | some tl, some bl =>
+      match endingEdges tbl tl bl with
+      | [a, t, b] =>
+        "|".intercalate ["OK", "bbd=" ++ String.join (tbl.map (fun t => boolStr t.buildByDefault)),
+          "all=" ++ encL a.ins, "test=" ++ encL t.ins, "bench=" ++ encL b.ins,
+          "mand=" ++ encL (tbl.flatMap mandatoryInstall), "opt=" ++ encL (tbl.flatMap optionalInstall),
+          "install=" ++ "/".intercalate (installEdges.map (fun e => encL e.outs ++ ";" ++ encL e.ins ++ ";" ++ encodeStr e.rule))]
+      | _ => "bad-model"
+    | _, _ => "bad-op"
 
 def decodeOp (s : String) : Option Emit.Op :=
   match s.splitOn ";" with
@@ -127,6 +198,15 @@ def handle (cmd : String) (fs : List String) : String :=
     let es := if edges.trimAscii.isEmpty then [] else (edges.splitOn "/").map decodeEdge
     verdict { rules := decodeStrList rules, edges := es, pools := decodeStrList pools, defaults := strs dflt }
       (strs f) (pairs (strs r))
+  | "check", [t, f, r, i] =>
+    match loadText (decodeStr t) with
+    | .error e => e
+    | .ok m => verdict m.graph (strs f) (pairs (strs r)) "install" (strs i)
+  | "checkg", [rules, edges, f, r, pools, dflt, iroot, inst] =>
+    let es := if edges.trimAscii.isEmpty then [] else (edges.splitOn "/").map decodeEdge
+    verdict { rules := decodeStrList rules, edges := es, pools := decodeStrList pools, defaults := strs dflt }
+      (strs f) (pairs (strs r)) (String.ofList (decodeStr iroot)) (strs inst)
+  | "ending", [ts, tests, benches] => endingCmd ts tests benches
   | "canon", [p] => encodeStr (canonPath (decodeStr p))
   | "quote", [p] =>
     match Emit.ninjaQuoteBuild (decodeStr p) with
